@@ -200,10 +200,11 @@ func (sc *Scanner) scanNumber(ch int, buf *bytes.Buffer) error {
 // scanNumberEnd refuses a numeral that runs into letters, digits or '_' ("0return", "3and",
 // "0xffg", "1_"): llex.c read_numeral takes the whole alphanumeric run as one malformed number.
 func (sc *Scanner) scanNumberEnd(buf *bytes.Buffer) error {
-	if !isIdent(sc.Peek(), 1) {
+	// (a '.' belongs to the run as well: "1..2" and "1...x" are malformed numbers, not concatenations)
+	if !isIdent(sc.Peek(), 1) && sc.Peek() != '.' {
 		return nil
 	}
-	for isIdent(sc.Peek(), 1) {
+	for isIdent(sc.Peek(), 1) || sc.Peek() == '.' {
 		writeChar(buf, sc.Next())
 	}
 	return sc.Error(buf.String(), "malformed number")
